@@ -152,13 +152,14 @@ CLAIMS = {
    note="Mixed level: proof for the split clause, bounded for the identification clause.",
    design="6 (C03)", technique="contract-based deductive verification (pyvc AST->VC, z3) for the split; bounded native stand-in for the identification theorem"),
  "C17": dict(
-   text="Factor clause only. Deductive proof from the real source of ssi.build_hank(method='cov_mm', calc_unc=True), with a loop invariant over a symbolic number of data blocks, that the "
-        "covariance factor's column k is exactly (stack(H_k') - stack(H)) / sqrt(nb (nb - 1)) with H_k' the lagged-product sum over data block k (same lags and window offsets as the Hankel "
-        "matrix, block [k Nb, (k+1) Nb) clamped to the available columns) - in the form the code computes today - and, as separate obligations, the property's two demands on that form: block "
-        "estimates on the scale of the full estimate, and column-stacked vectorisation. Both demands FAIL on the unchanged tree (open findings, replayed natively); any other change to the "
-        "factor fails the 'current form' obligation. The main clause (reported variance = first-order propagation of the factor) is a finite-difference statement about the floating-point "
-        "pipeline: bounded stand-in only, which also fails today (open finding).",
-   note="Partial claim with three open findings (known_findings.jsonl); the propagation itself is not under any contract.",
+   text="Factor clause: deductive proof from the real source of ssi.build_hank(method='cov_mm', calc_unc=True), with a loop invariant over a symbolic number of data blocks, that the "
+        "covariance factor's column k is exactly the COLUMN-STACKED (vec(H_k) - vec(H)) / sqrt(nb (nb - 1)) with H_k the lagged-product sum over data block k divided by the block length - "
+        "the estimator of H on that block, i.e. on the scale of H (lemma: the two 1/sqrt(N) weights and the factor N cancel) - with the same lags and window offsets as the Hankel matrix "
+        "(block [k Nb, (k+1) Nb) clamped to the available columns). The property's two demands (scale, vectorisation) are separate named obligations; both failed on the tree as found and "
+        "were repaired in /repo (6ca5341, dc75618). The main clause (reported variance = first-order propagation of the factor, at every model order, summed over the factor's columns) is a "
+        "finite-difference statement about the floating-point pipeline: bounded stand-in only; it failed on the tree as found (SSI_fast used the columns of V^T as right singular vectors, "
+        "repaired in 9cb106e) and holds now on every guarded case tried.",
+   note="Mixed level: proof for the factor clause, bounded (finite differences) for the propagation clause. Three defects found and repaired (known_findings.jsonl: fixed).",
    design="A.6 / 6 (C17)", technique="contract-based deductive verification of the factor (pyvc AST->VC, z3: lazy sums over data blocks, structured index splitting, loop invariant); bounded finite-difference stand-in for the propagation"),
  "C08": dict(
    text="Deductive proof, at the modal-parameter stage shared by all SSI and pLSCF variants (ssi.ac2mp, plscf.ac2mp_poly executed from the real source, eigen-decomposition uninterpreted), of two clauses: every "
